@@ -6,9 +6,13 @@ package nexus
 
 //@ func (*io/nexus.Parser).Parse
 //@   flag treeop
-//@   requires p != nil
+//@   requires pw(p)
 //@   allocates Nexus, []*tree.Tree, []string, map[string]bool
 //@   ensures [document_or_error] result1 == nil ==> result0 != nil
+//@   loop 1
+//@     invariant [well_formed] pw(p) && p.s == old(p.s) && p.s.r == old(p.s.r)
+//@     invariant [one_name_per_tree_string] len(treenames) == len(treestrings)
+//@     decreases pm(p)
 //@   ensures [trees_flag_means_at_least_one_tree] result1 == nil && result0.HasTrees ==> len(result0.trees) > 0 && (forall k int :: {result0.trees[k]} 0 <= k && k < len(result0.trees) ==> result0.trees[k] != nil)
 
 // the only writer of HasTrees: the flag is set together with the first tree
@@ -27,3 +31,218 @@ package nexus
 //@   requires n != nil
 //@   assigns nothing
 //@   ensures [first_tree_of_the_document] (len(n.trees) > 0 ==> result == n.trees[0]) && (len(n.trees) == 0 ==> result == nil)
+
+// ---------------------------------------------------------------------------
+// Nexus scanner and parser (property C02): no run-time fault on any rune
+// stream, and every loop makes progress on the abstract stream behind the
+// bufio.Reader (remaining(r) = runes ReadRune can still deliver) or stops.
+// ---------------------------------------------------------------------------
+
+//@ func (*io/nexus.Scanner).read
+//@   requires s != nil && s.r != nil
+//@   allocates iface
+//@   assigns stream(s.r)
+//@   ensures [consumes_one_rune_or_signals_end] (remaining(s.r) == old(remaining(s.r)) - 1 && canunread(s.r)) || (remaining(s.r) == old(remaining(s.r)) && old(remaining(s.r)) == 0 && result == 0 && !canunread(s.r))
+//@   ensures [non_negative] remaining(s.r) >= 0
+
+//@ func (*io/nexus.Scanner).unread
+//@   requires s != nil && s.r != nil
+//@   allocates iface
+//@   assigns stream(s.r)
+//@   ensures [gives_back_at_most_the_last_rune] remaining(s.r) == old(remaining(s.r)) + (old(canunread(s.r)) ? 1 : 0) && !canunread(s.r)
+
+//@ func (*io/nexus.Scanner).scanWhitespace
+//@   requires s != nil && s.r != nil
+//@   allocates iface, bytes.Buffer
+//@   assigns stream(s.r)
+//@   ensures [never_gives_back_more_than_it_took] remaining(s.r) <= old(remaining(s.r)) && remaining(s.r) >= 0
+//@   ensures [consumes_at_least_one_rune_unless_at_end] old(remaining(s.r)) > 0 ==> remaining(s.r) < old(remaining(s.r))
+//@   ensures [token] tok == WS
+//@   loop 1
+//@     assigns stream(s.r)
+//@     invariant [progress_so_far] remaining(s.r) >= 0 && remaining(s.r) <= old(remaining(s.r)) && (old(remaining(s.r)) > 0 ==> remaining(s.r) < old(remaining(s.r)))
+//@     decreases remaining(s.r)
+
+//@ func (*io/nexus.Scanner).scanIdent
+//@   requires s != nil && s.r != nil
+//@   allocates iface, bytes.Buffer
+//@   assigns stream(s.r)
+//@   ensures [never_gives_back_more_than_it_took] remaining(s.r) <= old(remaining(s.r)) && remaining(s.r) >= 0
+//@   ensures [consumes_at_least_one_rune_unless_at_end] old(remaining(s.r)) > 0 ==> remaining(s.r) < old(remaining(s.r))
+//@   loop 1
+//@     assigns stream(s.r)
+//@     invariant [progress_so_far] remaining(s.r) >= 0 && remaining(s.r) <= old(remaining(s.r)) && (old(remaining(s.r)) > 0 ==> remaining(s.r) < old(remaining(s.r)))
+//@     decreases remaining(s.r)
+
+//@ func (*io/nexus.Scanner).Scan
+//@   requires s != nil && s.r != nil
+//@   allocates iface, bytes.Buffer
+//@   assigns stream(s.r)
+//@   ensures [never_gives_back_more_than_it_took] remaining(s.r) <= old(remaining(s.r)) && remaining(s.r) >= 0
+//@   ensures [a_token_other_than_EOF_costs_at_least_one_rune] tok != EOF ==> remaining(s.r) < old(remaining(s.r))
+//@   ensures [at_the_end_only_EOF_is_returned] old(remaining(s.r)) == 0 ==> tok == EOF
+//@   ensures [progress_or_end_of_input] remaining(s.r) < old(remaining(s.r)) || (old(remaining(s.r)) == 0 && tok == EOF)
+
+//@ func (*io/nexus.Parser).scan
+//@   requires p != nil && p.s != nil && p.s.r != nil && (p.buf.n == 0 || p.buf.n == 1)
+//@   allocates iface, bytes.Buffer
+//@   assigns stream(p.s.r), p.buf
+//@   ensures [measure_does_not_grow] 2 * remaining(p.s.r) + p.buf.n <= old(2 * remaining(p.s.r) + p.buf.n) || (tok == EOF && remaining(p.s.r) == old(remaining(p.s.r)))
+//@   ensures [a_token_other_than_EOF_decreases_the_measure] tok != EOF ==> 2 * remaining(p.s.r) + p.buf.n < old(2 * remaining(p.s.r) + p.buf.n)
+//@   ensures [buffer_flag] p.buf.n == 0 && remaining(p.s.r) >= 0
+//@   ensures [progress_or_end_of_input] 2 * remaining(p.s.r) + p.buf.n < old(2 * remaining(p.s.r) + p.buf.n) || (old(2 * remaining(p.s.r) + p.buf.n) == 0 && tok == EOF)
+
+//@ define pw(p *Parser) bool = p != nil && p.s != nil && p.s.r != nil && (p.buf.n == 0 || p.buf.n == 1)
+//@ define pm(p *Parser) int = 2 * remaining(p.s.r) + p.buf.n
+
+//@ func (*io/nexus.Parser).unscan
+//@   requires pw(p)
+//@   assigns p.buf
+//@   ensures [one_token_pushed_back] p.buf.n == 1 && pw(p)
+
+//@ func (*io/nexus.Parser).scanIgnoreWhitespace
+//@   requires pw(p)
+//@   allocates iface, bytes.Buffer
+//@   assigns stream(p.s.r), p.buf
+//@   ensures [well_formed] pw(p) && p.buf.n == 0
+//@   ensures [progress_or_end_of_input] pm(p) < old(pm(p)) || (old(pm(p)) == 0 && tok == EOF)
+//@   ensures [measure_does_not_grow] pm(p) <= old(pm(p))
+//@   ensures [a_token_other_than_EOF_decreases_the_measure] tok != EOF ==> pm(p) < old(pm(p))
+
+//@ func (*io/nexus.Parser).scanIgnoreWhitespaceAndEOL
+//@   requires pw(p)
+//@   allocates iface, bytes.Buffer
+//@   assigns stream(p.s.r), p.buf
+//@   ensures [well_formed] pw(p) && p.buf.n == 0
+//@   ensures [progress_or_end_of_input] pm(p) < old(pm(p)) || (old(pm(p)) == 0 && tok == EOF)
+//@   ensures [measure_does_not_grow] pm(p) <= old(pm(p))
+//@   ensures [a_token_other_than_EOF_decreases_the_measure] tok != EOF ==> pm(p) < old(pm(p))
+//@   loop 1
+//@     assigns stream(p.s.r), p.buf
+//@     invariant [well_formed] pw(p) && p.buf.n == 0 && p.s == old(p.s) && p.s.r == old(p.s.r)
+//@     invariant [progress] pm(p) <= old(pm(p)) && (tok != EOF ==> pm(p) < old(pm(p))) && (pm(p) < old(pm(p)) || (old(pm(p)) == 0 && tok == EOF))
+//@     decreases pm(p) + (tok == WS || tok == ENDOFLINE ? 1 : 0)
+
+//@ func (*io/nexus.Parser).consumeComment
+//@   requires pw(p)
+//@   allocates iface, bytes.Buffer
+//@   assigns stream(p.s.r), p.buf
+//@   ensures [well_formed] pw(p)
+//@   ensures [end_of_input_inside_a_comment_is_an_error] old(pm(p)) == 0 && curtoken == OPENBRACK ==> err != nil
+//@   ensures [measure_does_not_grow] pm(p) <= old(pm(p))
+//@   loop 1
+//@     assigns stream(p.s.r), p.buf
+//@     invariant [well_formed] pw(p) && p.s == old(p.s) && p.s.r == old(p.s.r)
+//@     invariant [measure_does_not_grow] pm(p) <= old(pm(p)) && pm(p) <= lold(pm(p))
+//@     invariant [no_iteration_completes_at_end_of_input] old(pm(p)) == 0 && curtoken == OPENBRACK ==> outtoken == OPENBRACK
+//@     decreases pm(p)
+
+//@ func (*io/nexus.Parser).parseUnsupportedCommand
+//@   requires pw(p)
+//@   allocates iface, bytes.Buffer
+//@   assigns stream(p.s.r), p.buf
+//@   ensures [well_formed] pw(p)
+//@   ensures [end_of_input_is_an_error] old(pm(p)) == 0 ==> err != nil
+//@   ensures [measure_does_not_grow] pm(p) <= old(pm(p))
+//@   loop 1
+//@     assigns stream(p.s.r), p.buf
+//@     invariant [well_formed] pw(p) && p.s == old(p.s) && p.s.r == old(p.s.r)
+//@     invariant [measure_does_not_grow] pm(p) <= old(pm(p)) && pm(p) <= lold(pm(p))
+//@     invariant [end_of_input_reported] stopunsupported && old(pm(p)) == 0 ==> err != nil
+//@     decreases pm(p) + (stopunsupported ? 0 : 1)
+
+//@ func (*io/nexus.Parser).parseUnsupportedKey
+//@   requires pw(p)
+//@   allocates iface, bytes.Buffer
+//@   assigns stream(p.s.r), p.buf
+//@   ensures [well_formed] pw(p)
+//@   ensures [end_of_input_is_an_error] old(pm(p)) == 0 ==> err != nil
+//@   ensures [measure_does_not_grow] pm(p) <= old(pm(p))
+
+//@ func (*io/nexus.Parser).parseUnsupportedBlock
+//@   requires pw(p)
+//@   allocates iface, bytes.Buffer
+//@   assigns stream(p.s.r), p.buf
+//@   ensures [well_formed] pw(p)
+//@   ensures [end_of_input_is_an_error] old(pm(p)) == 0 ==> result != nil
+//@   ensures [measure_does_not_grow] pm(p) <= old(pm(p))
+//@   loop 1
+//@     assigns stream(p.s.r), p.buf
+//@     invariant [well_formed] pw(p) && p.s == old(p.s) && p.s.r == old(p.s.r)
+//@     invariant [measure_does_not_grow] pm(p) <= old(pm(p)) && pm(p) <= lold(pm(p))
+//@     invariant [end_of_input_reported] stopunsupported && old(pm(p)) == 0 ==> err != nil
+//@     decreases pm(p) + (stopunsupported ? 0 : 1)
+
+// ---------------------------------------------------------------------------
+// Nexus parser (property C02): no run-time fault on any token stream
+// ---------------------------------------------------------------------------
+
+//@ func (*io/nexus.Parser).parseData
+//@   flag noframe
+//@   requires pw(p)
+//@   ensures [well_formed] pw(p)
+//@   ensures [measure_does_not_grow] pm(p) <= old(pm(p))
+//@   loop 1
+//@     invariant [well_formed] pw(p) && p.s == old(p.s) && p.s.r == old(p.s.r)
+//@     invariant [measure_does_not_grow] pm(p) <= old(pm(p)) && pm(p) <= lold(pm(p))
+//@     decreases pm(p) + (stopdata ? 0 : 1)
+//@   loop 2
+//@     invariant [well_formed] pw(p) && p.s == old(p.s) && p.s.r == old(p.s.r)
+//@     invariant [measure_does_not_grow] pm(p) <= old(pm(p)) && pm(p) <= lold(pm(p))
+//@     decreases pm(p) + (stopdimensions ? 0 : 1)
+//@   loop 3
+//@     invariant [well_formed] pw(p) && p.s == old(p.s) && p.s.r == old(p.s.r)
+//@     invariant [measure_does_not_grow] pm(p) <= old(pm(p)) && pm(p) <= lold(pm(p))
+//@     decreases pm(p) + (stopformat ? 0 : 1)
+//@   loop 4
+//@     invariant [well_formed] pw(p) && p.s == old(p.s) && p.s.r == old(p.s.r)
+//@     invariant [measure_does_not_grow] pm(p) <= old(pm(p)) && pm(p) <= lold(pm(p))
+//@     decreases pm(p) + (stopmatrix ? 0 : 1)
+//@   loop 5
+//@     invariant [well_formed] pw(p) && p.s == old(p.s) && p.s.r == old(p.s.r)
+//@     invariant [measure_does_not_grow] pm(p) <= old(pm(p)) && pm(p) <= lold(pm(p))
+//@     decreases pm(p) + (stopseq ? 0 : 1)
+
+//@ func (*io/nexus.Parser).parseTaxa
+//@   flag noframe
+//@   requires pw(p)
+//@   ensures [well_formed] pw(p)
+//@   ensures [measure_does_not_grow] pm(p) <= old(pm(p))
+//@   loop 1
+//@     invariant [well_formed] pw(p) && p.s == old(p.s) && p.s.r == old(p.s.r)
+//@     invariant [measure_does_not_grow] pm(p) <= old(pm(p)) && pm(p) <= lold(pm(p))
+//@     decreases pm(p) + (stoptaxa ? 0 : 1)
+//@   loop 2
+//@     invariant [well_formed] pw(p) && p.s == old(p.s) && p.s.r == old(p.s.r)
+//@     invariant [measure_does_not_grow] pm(p) <= old(pm(p)) && pm(p) <= lold(pm(p))
+//@     decreases pm(p) + (stopdimensions ? 0 : 1)
+//@   loop 3
+//@     invariant [well_formed] pw(p) && p.s == old(p.s) && p.s.r == old(p.s.r)
+//@     invariant [measure_does_not_grow] pm(p) <= old(pm(p)) && pm(p) <= lold(pm(p))
+//@     decreases pm(p) + (stoplabels ? 0 : 1)
+
+//@ func (*io/nexus.Parser).parseTranslationTable
+//@   flag noframe
+//@   requires pw(p)
+//@   ensures [well_formed] pw(p)
+//@   ensures [measure_does_not_grow] pm(p) <= old(pm(p))
+//@   loop 1
+//@     invariant [well_formed] pw(p) && p.s == old(p.s) && p.s.r == old(p.s.r)
+//@     invariant [measure_does_not_grow] pm(p) <= old(pm(p)) && pm(p) <= lold(pm(p))
+//@     decreases pm(p) + (stop ? 0 : 1)
+
+//@ func (*io/nexus.Parser).parseTrees
+//@   flag noframe
+//@   requires pw(p)
+//@   ensures [well_formed] pw(p)
+//@   ensures [measure_does_not_grow] pm(p) <= old(pm(p))
+//@   ensures [one_name_per_tree_string] len(treenames) == len(treestrings)
+//@   loop 1
+//@     invariant [one_name_per_tree_string] len(treenames) == len(treestrings)
+//@     invariant [well_formed] pw(p) && p.s == old(p.s) && p.s.r == old(p.s.r)
+//@     invariant [measure_does_not_grow] pm(p) <= old(pm(p)) && pm(p) <= lold(pm(p))
+//@     decreases pm(p) + (stoptrees ? 0 : 1)
+//@   loop 2
+//@     invariant [well_formed] pw(p) && p.s == old(p.s) && p.s.r == old(p.s.r)
+//@     invariant [measure_does_not_grow] pm(p) <= old(pm(p)) && pm(p) <= lold(pm(p))
+//@     decreases pm(p) + (tok4 == EOF ? 0 : 1)
